@@ -89,29 +89,59 @@ class Module:
                 and not v.keywords and is_message(v.args[0]) and isinstance(v.args[1], ast.Constant) and v.args[1].value == 0)
 
 
+class Subst(ast.NodeTransformer):
+    """replace parameter names by argument expressions (used for one-expression-statement helpers)"""
+    def __init__(self, m):
+        self.m = m
+
+    def visit_Name(self, n):
+        return ast.copy_location(self.m[n.id], n) if n.id in self.m else n
+
+
 class Fn:
     def __init__(self, mod, fn, tag):
         self.mod, self.fn, self.tag = mod, fn, tag
         self.vars = {}
         self.assigned = set()
         self.opaque = set()        # locals holding a message string (dropped)
+        self.scopes = [{}]         # python name -> internal name; one scope per function being translated (inlining)
+        self.inlining = []         # helpers being inlined (no recursion)
+        self.ntemp = 0
         a = fn.args
         if a.vararg or a.kwarg or a.kwonlyargs or a.posonlyargs:
             bad('parameter list of %s' % fn.name, fn)
         self.params = [x.arg for x in a.args]
         for p in self.params:
             self.var(p)
-            self.assigned.add(p)
+            self.assigned.add(self.iname(p))
+
+    def iname(self, name):
+        """the internal (renamed-apart) name of a python local in the function being translated"""
+        sc = self.scopes[-1]
+        if name not in sc:
+            sc[name] = name if len(self.scopes) == 1 else '%s__%s' % ('__'.join(self.inlining), name)
+        return sc[name]
 
     def var(self, name):
-        if name not in self.vars:
-            self.vars[name] = len(self.vars)
-        return 'v_%s_%s' % (self.tag, name)
+        i = self.iname(name)
+        if i not in self.vars:
+            self.vars[i] = len(self.vars)
+        return 'v_%s_%s' % (self.tag, i)
+
+    def temp(self):
+        self.ntemp += 1
+        name = 'tmp%d_' % self.ntemp
+        self.scopes[-1][name] = name if len(self.scopes) == 1 else '%s__%s' % ('__'.join(self.inlining), name)
+        return name
+
+    def bind(self, name):
+        self.assigned.add(self.iname(name))
 
     def use(self, name, node):
-        if name in self.opaque:
+        i = self.iname(name)
+        if i in self.opaque:
             bad('a message string is used for something else than a message', node)
-        if name not in self.assigned:
+        if i not in self.assigned:
             bad('local %r read before it is bound' % name, node)
         return self.var(name)
 
@@ -236,6 +266,64 @@ class Fn:
         self.assigned = set.intersection(*sets) if sets else before
         return res
 
+    def is_helper(self, f):
+        """a same-module function that is neither translated as such nor one of the primitives: inlined"""
+        return (isinstance(f, ast.Name) and f.id in self.mod.funcs and f.id not in FUN_ID
+                and f.id not in ('_get_docformat', 'processtypes', 'get_parser_by_name', 'get_to_stan_error')
+                and self.scopes[-1].get(f.id, f.id) not in self.assigned)
+
+    def inline(self, result, call, node):
+        """result = helper(args): the helper's body, its locals renamed apart; a parameter bound to a bare local of the
+        caller that the helper never rebinds IS that local (same Python object: appends are seen by the caller)"""
+        h = self.mod.funcs[call.func.id]
+        if h.name in self.inlining or len(self.inlining) >= 3:
+            bad('recursive helper', node)
+        a = h.args
+        if a.vararg or a.kwarg or a.kwonlyargs or a.posonlyargs or h.decorator_list:
+            bad('parameter list of helper %s' % h.name, h)
+        names = [p.arg for p in a.args]
+        vals = {}
+        if len(call.args) > len(names):
+            bad('too many arguments', call)
+        for n, v in zip(names, call.args):
+            vals[n] = v
+        for k in call.keywords:
+            if k.arg is None or k.arg not in names or k.arg in vals:
+                bad('keyword argument', call)
+            vals[k.arg] = k.value
+        for n, d in zip(names[len(names) - len(a.defaults):], a.defaults):
+            vals.setdefault(n, d)
+        if set(vals) != set(names):
+            bad('missing argument', call)
+        rebound = {t.id for sub in ast.walk(h) for t in ast.walk(sub)
+                   if isinstance(t, ast.Name) and isinstance(t.ctx, (ast.Store, ast.Del))}
+        pre, scope = [], {}
+        for n in names:
+            v = vals[n]
+            if isinstance(v, ast.Name) and n not in rebound:
+                self.use(v.id, node)
+                scope[n] = self.iname(v.id)                  # alias
+            else:
+                scope[n] = None                              # evaluated in the caller's scope, bound below
+                pre.append((n, self.expr(v) if not is_message(v) else None))
+        self.inlining.append(h.name)
+        self.scopes.append({k: v for k, v in scope.items() if v is not None})
+        out = []
+        for n, e in pre:
+            if e is None:
+                self.opaque.add(self.iname(n))
+            else:
+                out.append('SAssign %s (%s)' % (self.var(n), e))
+                self.bind(n)
+        body = self.block(strip_doc(h.body))
+        self.scopes.pop()
+        self.inlining.pop()
+        x = self.var(result)
+        r = 'SInline %s (%s)' % (x, body)
+        for o in reversed(out):
+            r = 'SSeq (%s) (%s)' % (o, r)
+        return r
+
     def call_value(self, name, v, s):
         """x = <call>: the statement forms whose right-hand side is a primitive or a translated function"""
         f = v.func
@@ -245,6 +333,8 @@ class Fn:
             return 'SGetParser %s (%s)' % (x, self.expr(v.args[0]))
         if isinstance(f, ast.Name) and f.id in FUN_ID and f.id in self.mod.funcs:
             return 'SAssignCall %s %s %s' % (x, FUN_ID[f.id], self.resolve_call(v))
+        if self.is_helper(f):
+            return self.inline(name, v, s)
         if isinstance(f, ast.Attribute) and f.attr == 'to_stan' and len(v.args) == 1 and not v.keywords:
             return 'SToStan %s (%s)' % (x, self.expr(f.value))
         if (isinstance(f, ast.Name) or self.is_plaintext_parser(f)) and len(v.args) == 2 and not v.keywords \
@@ -263,6 +353,12 @@ class Fn:
         if isinstance(s, ast.Assert):
             return 'SAssert (%s)' % self.expr(s.test)
         if isinstance(s, ast.Return):
+            if isinstance(s.value, ast.Call):
+                t = self.temp()
+                c = self.call_value(t, s.value, s)
+                if c is not None:                            # return <call>  ==  tmp = <call>; return tmp
+                    self.bind(t)
+                    return 'SSeq (%s) (SReturn (EVar %s))' % (c, self.var(t))
             return 'SReturn (%s)' % (self.expr(s.value) if s.value is not None else 'EConst VNone')
         if isinstance(s, ast.If):
             c = self.expr(s.test)
@@ -282,10 +378,10 @@ class Fn:
                 v = 'None'
                 if h.name:
                     v = 'Some %s' % self.var(h.name)
-                    self.assigned.add(h.name)
+                    self.bind(h.name)
                 hb = self.block(h.body)
                 if h.name:
-                    self.assigned.discard(h.name)
+                    self.assigned.discard(self.iname(h.name))
                 sets.append(self.assigned)
                 hs.append((ECLS[h.type.id], v, hb))
             self.assigned = set.intersection(*sets)
@@ -301,7 +397,7 @@ class Fn:
                     and not s.args.defaults and not s.args.vararg and not s.args.kwarg and not s.decorator_list
                     and self.is_plaintext_parser(body[0].value.func) and not body[0].value.keywords
                     and [ast.unparse(a) for a in body[0].value.args] == ps):
-                self.assigned.add(s.name)
+                self.bind(s.name)
                 return 'SAssign %s (EConst (VParser PFPlain))' % self.var(s.name)
             bad('nested function', s)
         if isinstance(s, ast.For):
@@ -309,6 +405,15 @@ class Fn:
             if s.orelse or not isinstance(s.target, ast.Name) or len(s.body) != 1:
                 bad('for loop', s)
             b = s.body[0]
+            if isinstance(b, ast.Expr) and isinstance(b.value, ast.Call) and self.is_helper(b.value.func) and not b.value.keywords:
+                # a helper that is one expression statement: substitute the arguments for its parameters
+                h = self.mod.funcs[b.value.func.id]
+                hb = strip_doc(h.body)
+                hp = [p.arg for p in h.args.args]
+                if (len(hb) == 1 and isinstance(hb[0], ast.Expr) and len(hp) == len(b.value.args) and not h.args.defaults
+                        and all(isinstance(x, ast.Name) for x in b.value.args)):
+                    import copy
+                    b = ast.fix_missing_locations(Subst(dict(zip(hp, b.value.args))).visit(copy.deepcopy(hb[0])))
             if not (isinstance(b, ast.Expr) and isinstance(b.value, ast.Call) and isinstance(b.value.func, ast.Attribute)
                     and b.value.func.attr == 'report' and len(b.value.args) == 1 and pure(b.value.args[0])):
                 bad('for loop body', s)
@@ -328,26 +433,37 @@ class Fn:
                     and isinstance(v, ast.Call) and ast.unparse(v.func) == 'model.get_docstring' and len(v.args) == 1 and not v.keywords:
                 o = self.obj(v.args[0], s)
                 a, b = tgt.elts[0].id, tgt.elts[1].id
-                self.assigned.update((a, b))
+                self.bind(a); self.bind(b)
                 return 'SGetDocstring %s %s (%s)' % (self.var(a), self.var(b), o)
             if isinstance(tgt, ast.Attribute) and tgt.attr == 'parsed_docstring':
+                if isinstance(v, ast.Call):
+                    t = self.temp()
+                    c = self.call_value(t, v, s)
+                    if c is not None:                        # o.parsed_docstring = <call>  ==  tmp = <call>; o.parsed_docstring = tmp
+                        self.bind(t)
+                        return 'SSeq (%s) (SSetParsedDoc (%s) (EVar %s))' % (c, self.obj(tgt.value, s), self.var(t))
                 return 'SSetParsedDoc (%s) (%s)' % (self.obj(tgt.value, s), self.expr(v))
             if not isinstance(tgt, ast.Name):
                 bad('assignment target', s)
             name = tgt.id
             if is_message(v):
-                self.opaque.add(name)
+                self.opaque.add(self.iname(name))
                 return None
-            self.opaque.discard(name)
+            self.opaque.discard(self.iname(name))
             out = self.call_value(name, v, s) if isinstance(v, ast.Call) else None
             if out is None:
                 out = 'SAssign %s (%s)' % (self.var(name), self.expr(v))
-            self.assigned.add(name)
+            self.bind(name)
             return out
         if isinstance(s, ast.Expr) and isinstance(s.value, ast.Call):
             c, f = s.value, s.value.func
             if isinstance(f, ast.Name) and f.id in FUN_ID and f.id in self.mod.funcs:
                 return 'SCall %s %s' % (FUN_ID[f.id], self.resolve_call(c))
+            if self.is_helper(f):
+                t = self.temp()
+                r = self.inline(t, c, s)
+                self.bind(t)
+                return r
             if isinstance(f, ast.Attribute) and f.attr == 'msg' and isinstance(f.value, ast.Attribute) and f.value.attr == 'system':
                 self.obj(f.value.value, s)
                 if not all(pure(a) for a in c.args) or not all(pure(k.value) for k in c.keywords):
